@@ -106,6 +106,11 @@ class Shard:
         self.status = None  # "ok" | "crash" | "timeout"
         self.rc = None
         self.stuck_info = None
+        # the harness itself never sleeps or blocks: a shard (run directly, not under a wrapper) that burns no
+        # CPU for a while is stuck inside the code under test
+        self.idle_check = wrapper is None
+        self.last_cpu = None
+        self.idle_since = None
 
     def start(self):
         self.log_handle = open(self.logf, "w")
@@ -114,16 +119,25 @@ class Shard:
         self.t0 = time.time()
 
 
+IDLE_LIMIT_S = 25
+
+
 def run_shards(shards, timeout_s, parallel=16):
-    """Runs shards with a bounded number in flight and a wall-clock watchdog per shard."""
+    """Runs shards with a bounded number in flight, a wall-clock watchdog per shard, and an idleness
+    detector (no CPU consumed for IDLE_LIMIT_S seconds while sleeping in a system call)."""
     pending = list(shards)
     running = []
+    last_sample = 0
     while pending or running:
         while pending and len(running) < parallel:
             s = pending.pop(0)
             s.start()
             running.append(s)
         time.sleep(0.05)
+        now = time.time()
+        sample = now - last_sample >= 2.0
+        if sample:
+            last_sample = now
         for s in list(running):
             rc = s.proc.poll()
             if rc is not None:
@@ -131,11 +145,25 @@ def run_shards(shards, timeout_s, parallel=16):
                 s.status = "ok" if rc == 0 and os.path.exists(s.out) else "crash"
                 s.log_handle.close()
                 running.remove(s)
-            elif time.time() - s.t0 > timeout_s:
+                continue
+            stuck = None
+            if now - s.t0 > timeout_s:
                 a = proc_state(s.proc.pid)
                 time.sleep(1.0)
                 b = proc_state(s.proc.pid)
-                s.stuck_info = {"syscall": b[0], "state": b[1], "cpu_ticks_in_1s": b[2] - a[2], "threads": b[3]}
+                stuck = {"syscall": b[0], "state": b[1], "cpu_ticks_in_1s": b[2] - a[2], "threads": b[3], "why": "watchdog %ds" % timeout_s}
+            elif sample and s.idle_check:
+                st = proc_state(s.proc.pid)
+                if s.last_cpu is not None and st[2] == s.last_cpu and st[1] in ("S", "D"):
+                    if s.idle_since is None:
+                        s.idle_since = now
+                    elif now - s.idle_since >= IDLE_LIMIT_S:
+                        stuck = {"syscall": st[0], "state": st[1], "cpu_ticks_in_1s": 0, "threads": st[3], "why": "no CPU consumed for %ds" % IDLE_LIMIT_S}
+                else:
+                    s.idle_since = None
+                s.last_cpu = st[2]
+            if stuck is not None:
+                s.stuck_info = stuck
                 try:
                     os.killpg(s.proc.pid, signal.SIGKILL)
                 except OSError:
@@ -146,6 +174,11 @@ def run_shards(shards, timeout_s, parallel=16):
                 s.log_handle.close()
                 running.remove(s)
     return shards
+
+
+BLOCKING_SYSCALLS = {"0": "read", "1": "write", "7": "poll", "20": "writev", "23": "select", "43": "accept", "44": "sendto", "45": "recvfrom",
+                     "46": "sendmsg", "47": "recvmsg", "232": "epoll_wait", "271": "ppoll", "281": "epoll_pwait", "288": "accept4",
+                     "441": "epoll_pwait2"}
 
 
 # ----------------------------------------------------------------------------- known findings
@@ -283,6 +316,7 @@ def run(args, prop, meta, tier, seed, run_dir, t_start):
     skipped_stages = set()
     timeout_s = meta.get("timeout", {}).get(tier, 900 if tier == "quick" else 7200)
 
+    lost = []
     for st in stages:
         flavor = st["flavor"]
         nsh = int(st.get("shards", args["shards"]))
@@ -305,7 +339,8 @@ def run(args, prop, meta, tier, seed, run_dir, t_start):
                            "--scale", str(scale), "--run-dir", run_dir]
                     env = dict(ENV)
                     env.update(st.get("env", {}))
-                    shards.append(Shard(i, cmd, out, ann, os.path.join(run_dir, "%s-%d.log" % (flavor, i)), env=env))
+                    shards.append(Shard(i, cmd, out, ann, os.path.join(run_dir, "%s-%d.log" % (flavor, i)), env=env,
+                                        wrapper=(wrapper or None)))
         if err:
             log(err)
             if st.get("optional"):
@@ -347,7 +382,10 @@ def run(args, prop, meta, tier, seed, run_dir, t_start):
                 if os.path.exists(s.out + ".st"):
                     st_files.append(s.out + ".st")
             else:
-                handle_lost_shard(prop, tier, seed, s, flavor, st, merged, inconclusive, run_dir)
+                lost.append((s, flavor, st))
+
+    if lost:
+        handle_lost_shards(prop, tier, seed, lost, merged, inconclusive, run_dir)
 
     # ---- distinct count = size of the union of the shards' fingerprint sets
     distinct = 0
@@ -443,67 +481,77 @@ def run(args, prop, meta, tier, seed, run_dir, t_start):
     return 0
 
 
-def handle_lost_shard(prop, tier, seed, s, flavor, st, merged, inconclusive, run_dir):
-    """A shard died or exceeded the watchdog: re-run the announced case alone; only a reproduced
-    crash / confirmed hang is a violation, anything else is inconclusive."""
-    case_no = read_announce(s.announce)
-    tail = ""
-    try:
-        with open(s.logf) as f:
-            tail = "".join(f.readlines()[-15:])
-    except OSError:
-        pass
-    if flavor in ("asan", "miri") and s.status == "crash":
-        # a sanitizer report is itself the observation
+def handle_lost_shards(prop, tier, seed, lost, merged, inconclusive, run_dir):
+    """Shards that died or got stuck: every announced case is re-run alone (all re-runs in parallel); only a
+    reproduced crash, a sanitizer report, or a process that is again provably blocked / spinning is a violation,
+    anything else is inconclusive."""
+    reruns = []
+    for (s, flavor, st) in lost:
+        case_no = read_announce(s.announce)
+        tail = ""
         try:
             with open(s.logf, errors="replace") as f:
-                full = f.read(2_000_000)
+                tail = "".join(f.readlines()[-15:])
         except OSError:
-            full = ""
-        mm = re.search(r"^.*(ERROR: AddressSanitizer|ERROR: LeakSanitizer|error: Undefined Behavior|error: memory leaked|error: unsupported operation|error: .*data race).*$", full, re.M)
-        if mm and "unsupported operation" not in mm.group(0):
-            lines = full[mm.start():].splitlines()
-            keep = [l for l in lines if not l.startswith("warning")][:40]
-            case = {"mode": "regen", "tier": tier, "seed": seed, "shard": s.idx, "nshards": int(st.get("shards", 16)),
-                    "case_no": case_no or 0, "flavor": flavor}
-            kind = "asan" if "Sanitizer" in mm.group(0) else "miri"
-            what = re.sub(r"==\d+==", "", mm.group(0)).strip()
-            what = re.sub(r" on address.*| at pc.*", "", what)
-            merged["violations"].append({"sig": "%s:sanitizer-%s" % (prop, kind), "detail": what + "\n" + "\n".join(keep), "case": case, "flavor": flavor})
-            return
-        if mm:
-            inconclusive.append("miri shard %d met an operation Miri does not support: %s" % (s.idx, mm.group(0)[:200]))
-            return
-    if case_no is None or flavor == "miri":
-        inconclusive.append("shard %s/%d %s (rc=%s) without an announced case; log tail: %s" % (flavor, s.idx, s.status, s.rc, tail[-300:].replace("\n", " | ")))
-        return
-    cmd = [c for c in s.cmd]
-    # isolated re-run of exactly that case
-    out = os.path.join(run_dir, "rerun-%s-%d.json" % (flavor, s.idx))
-    cmd[cmd.index("--out") + 1] = out
-    cmd += ["--only-case", str(case_no)]
-    rs = Shard(s.idx, cmd, out, s.announce + ".rerun", s.logf + ".rerun", env=s.env)
-    cmd[cmd.index("--announce") + 1] = rs.announce
-    run_shards([rs], 120)
-    case = {"mode": "regen", "tier": tier, "seed": seed, "shard": s.idx, "nshards": int(st.get("shards", 16)), "case_no": case_no,
-            "flavor": flavor}
-    if s.status == "crash" and rs.status == "crash":
-        merged["violations"].append({"sig": "%s:process-died" % prop,
-                                     "detail": "shard died with status %s at case %d and dies again when that case runs alone (status %s); log: %s"
-                                     % (s.rc, case_no, rs.rc, tail[-600:]), "case": case, "flavor": flavor})
-    elif s.status == "timeout" and rs.status == "timeout":
-        info = rs.stuck_info or {}
-        blocked = "epoll_wait" in describe_syscall(info.get("syscall", "")) or info.get("syscall", "").startswith("232 ")
-        spinning = info.get("cpu_ticks_in_1s", 0) >= 50
-        if blocked or spinning:
-            merged["violations"].append({"sig": "%s:%s" % (prop, "blocked" if blocked else "never-terminates"),
-                                         "detail": "case %d does not finish when run alone for 120 s: %s" % (case_no, json.dumps(info)),
-                                         "case": case, "flavor": flavor})
+            pass
+        if flavor in ("asan", "miri") and s.status == "crash":
+            try:
+                with open(s.logf, errors="replace") as f:
+                    full = f.read(2_000_000)
+            except OSError:
+                full = ""
+            mm = re.search(r"^.*(ERROR: AddressSanitizer|ERROR: LeakSanitizer|error: Undefined Behavior|error: memory leaked|error: unsupported operation|error: .*data race).*$", full, re.M)
+            if mm and "unsupported operation" not in mm.group(0):
+                lines = full[mm.start():].splitlines()
+                keep = [l for l in lines if not l.startswith("warning")][:40]
+                case = {"mode": "regen", "tier": tier, "seed": seed, "shard": s.idx, "nshards": int(st.get("shards", 16)),
+                        "case_no": case_no or 0, "flavor": flavor}
+                kind = "asan" if "Sanitizer" in mm.group(0) else "miri"
+                what = re.sub(r"==\d+==", "", mm.group(0)).strip()
+                what = re.sub(r" on address.*| at pc.*", "", what)
+                merged["violations"].append({"sig": "%s:sanitizer-%s" % (prop, kind), "detail": what + "\n" + "\n".join(keep), "case": case, "flavor": flavor})
+                continue
+            if mm:
+                inconclusive.append("miri shard %d met an operation Miri does not support: %s" % (s.idx, mm.group(0)[:200]))
+                continue
+        if case_no is None or flavor in ("miri", "strace", "valgrind"):
+            inconclusive.append("shard %s/%d %s (rc=%s) without a re-runnable announced case; log tail: %s" % (flavor, s.idx, s.status, s.rc, tail[-300:].replace("\n", " | ")))
+            continue
+        cmd = [c for c in s.cmd]
+        out = os.path.join(run_dir, "rerun-%s-%d.json" % (flavor, s.idx))
+        cmd[cmd.index("--out") + 1] = out
+        cmd += ["--only-case", str(case_no)]
+        rs = Shard(s.idx, cmd, out, s.announce + ".rerun", s.logf + ".rerun", env=s.env)
+        cmd[cmd.index("--announce") + 1] = rs.announce
+        reruns.append((s, flavor, st, case_no, tail, rs))
+    if reruns:
+        log("[lost] re-running %d announced cases in isolation" % len(reruns))
+        run_shards([r[5] for r in reruns], 120)
+    for (s, flavor, st, case_no, tail, rs) in reruns:
+        case = {"mode": "regen", "tier": tier, "seed": seed, "shard": s.idx, "nshards": int(st.get("shards", 16)), "case_no": case_no,
+                "flavor": flavor}
+        if s.status == "crash" and rs.status == "crash":
+            merged["violations"].append({"sig": "%s:process-died" % prop,
+                                         "detail": "shard died with status %s at case %d and dies again when that case runs alone (status %s); log: %s"
+                                         % (s.rc, case_no, rs.rc, tail[-600:]), "case": case, "flavor": flavor})
+        elif s.status == "timeout" and rs.status == "timeout":
+            info = rs.stuck_info or {}
+            num = (info.get("syscall") or "").split(" ")[0]
+            sleeping = info.get("state") in ("S", "D") and info.get("cpu_ticks_in_1s", 0) == 0
+            spinning = info.get("cpu_ticks_in_1s", 0) >= 50
+            if sleeping and num in BLOCKING_SYSCALLS:
+                merged["violations"].append({"sig": "%s:blocked" % prop,
+                                             "detail": "case %d, run alone, sleeps in %s() and consumes no CPU (%s): a call into the code under test blocks; the harness itself only uses non-blocking descriptors and zero-timeout polls"
+                                             % (case_no, BLOCKING_SYSCALLS[num], json.dumps(info)), "case": case, "flavor": flavor})
+            elif spinning:
+                merged["violations"].append({"sig": "%s:never-terminates" % prop,
+                                             "detail": "case %d does not finish when run alone for 120 s and keeps burning CPU: %s" % (case_no, json.dumps(info)),
+                                             "case": case, "flavor": flavor})
+            else:
+                inconclusive.append("case %d of shard %d got stuck twice but the process state is unclear: %s" % (case_no, s.idx, json.dumps(info)))
         else:
-            inconclusive.append("case %d of shard %d timed out twice but the process state is unclear: %s" % (case_no, s.idx, json.dumps(info)))
-    else:
-        inconclusive.append("shard %s/%d %s at case %s (rc=%s) but the case alone ends with %s; log tail: %s"
-                            % (flavor, s.idx, s.status, case_no, s.rc, rs.status, tail[-300:].replace("\n", " | ")))
+            inconclusive.append("shard %s/%d %s at case %s (rc=%s) but the case alone ends with %s; log tail: %s"
+                                % (flavor, s.idx, s.status, case_no, s.rc, rs.status, tail[-300:].replace("\n", " | ")))
 
 
 def post_process(prop, tier, seed, st, flavor, shards, run_dir, merged, stage_notes):
@@ -584,7 +632,7 @@ def miri_shards(prop, tier, seed, nsh, scale, run_dir, st):
         cmd = ["cargo", "+nightly", "miri", "run", "--release", "--", prop, "--tier", tier, "--seed", str(seed), "--shard", str(i),
                "--nshards", str(nsh), "--out", out, "--announce", ann, "--flavor", "miri", "--scale", str(scale),
                "--run-dir", run_dir]
-        shards.append(Shard(i, cmd, out, ann, os.path.join(run_dir, "miri-%d.log" % i), env=env))
+        shards.append(Shard(i, cmd, out, ann, os.path.join(run_dir, "miri-%d.log" % i), env=env, wrapper=["cargo-miri"]))
     return shards, None
 
 
